@@ -36,6 +36,9 @@ pub struct Scenario {
     pub end: End,
     /// delay between submissions, 20 us units
     pub submit_gap: u8,
+    /// stop/drop the pool right after submitting, while tasks are still queued (they must all still run)
+    #[serde(default)]
+    pub end_early: bool,
 }
 
 #[derive(Default)]
@@ -126,6 +129,47 @@ pub fn run_stress(s: &Scenario) -> Vec<Fail> {
     }
     for t in &s.tasks {
         submit(&mut sub, &pool, t, s.submit_gap, &h);
+    }
+    if s.end_early {
+        // stop/drop while tasks are still queued: "lets already-queued tasks finish", panics included
+        let end = s.end.clone();
+        let (tx, rx) = std::sync::mpsc::channel();
+        std::thread::spawn(move || {
+            let mut pool = pool;
+            if end == End::StopThenDrop {
+                pool.stop();
+            }
+            drop(pool);
+            let _ = tx.send(());
+        });
+        if rx.recv_timeout(Duration::from_secs(10)).is_err() {
+            fails.push(fail!("early-drop-hangs", "stopping/dropping a {}-thread pool with {} queued tasks did not return within 10 s", n, s.tasks.len()));
+            return fails;
+        }
+        let ok = wait_until(Duration::from_secs(10), || h.starts.lock().unwrap().len() >= sub.submitted.len() && h.finishes.lock().unwrap().len() >= sub.expected_finish.len());
+        if !ok {
+            fails.push(fail!(
+                "queued-tasks-lost-at-shutdown",
+                "{} tasks ({} panicking) were queued on a {}-thread pool that was then {}; only {} started and {} of {} non-panicking ones finished within 10 s",
+                sub.submitted.len(),
+                s.tasks.iter().filter(|t| t.panics).count(),
+                n,
+                if s.end == End::DropOnly { "dropped" } else { "stopped and dropped" },
+                h.starts.lock().unwrap().len(),
+                h.finishes.lock().unwrap().len(),
+                sub.expected_finish.len()
+            ));
+        }
+        let mut ids: Vec<usize> = h.starts.lock().unwrap().iter().map(|(i, _)| *i).collect();
+        ids.sort();
+        if ids.windows(2).any(|w| w[0] == w[1]) {
+            fails.push(fail!("task-ran-twice", "a task was started more than once: {:?}", ids));
+        }
+        let threads_seen = h.seen_threads.lock().unwrap().len();
+        if fails.is_empty() && !wait_until(Duration::from_secs(5), || h.exited_threads.load(Ordering::SeqCst) >= h.seen_threads.lock().unwrap().len()) {
+            fails.push(fail!("workers-do-not-exit", "after an early {} only {} of {} worker threads exited", if s.end == End::DropOnly { "drop" } else { "stop + drop" }, h.exited_threads.load(Ordering::SeqCst), threads_seen));
+        }
+        return fails;
     }
     // ---- every task runs exactly once; panicking ones affect nothing else
     let all_started = wait_until(Duration::from_secs(10), || h.starts.lock().unwrap().len() >= sub.submitted.len() && h.finishes.lock().unwrap().len() >= sub.expected_finish.len());
@@ -246,8 +290,9 @@ fn arb_scenario(max_workers: usize, max_tasks: usize) -> impl Strategy<Value = S
         proptest::collection::vec(task, 0..4),
         prop_oneof![Just(End::StopThenDrop), Just(End::DropOnly)],
         prop_oneof![2 => Just(0u8), 1 => 1u8..10],
+        prop_oneof![2 => Just(false), 1 => Just(true)],
     )
-        .prop_map(|(workers, tasks, witness, second_round, end, submit_gap)| Scenario { workers, tasks, witness, second_round, end, submit_gap })
+        .prop_map(|(workers, tasks, witness, second_round, end, submit_gap, end_early)| Scenario { workers, tasks, witness, second_round, end, submit_gap, end_early })
 }
 
 pub fn run(ctx: &Ctx) {
@@ -277,6 +322,9 @@ pub fn run(ctx: &Ctx) {
                 }
                 if s.witness {
                     labels.push("witness-batch");
+                }
+                if s.end_early {
+                    labels.push("shutdown-with-queued-tasks");
                 }
                 ctx.case(hash_of(&format!("{:?}", s)), nt, &labels);
                 ctx.sample(labels.last().unwrap(), || serde_json::to_value(s).unwrap());
